@@ -50,7 +50,7 @@ CFG = dict(
     shard=6,
     deps=["Common", "C08", "C09", "C11"],
     harness_dirs=["C12", "C11"],
-    rule="5 corpus cases (minimal witnesses of the five checker finding classes) + generated workload-endpoint states: 0-3 tiers "
+    rule="5 corpus cases (minimal witnesses of the five checker finding classes, fixed in /repo since) + generated workload-endpoint states: 0-3 tiers "
          "(default action Deny / Pass, unset only where the tree supports it or in its own stream) x 0-4 policies per tier (GNP, NP, KNP "
          "and the three staged kinds), policies split into policy groups at random, 0-3 rules per policy and direction, 0-3 profiles, "
          "ingress and egress, IPv4 and IPv6, 4 mark layouts, flow logs on/off, DROP/REJECT; rules of the COMMON FRAGMENT over a small "
@@ -61,7 +61,7 @@ CFG = dict(
          "probe packets per case (one aimed at each rule + a one-field perturbation, randoms; random entry marks, drop bit clear) are "
          "evaluated on all four (Ipt.run x2, Bpf interpreter, real checker) and compared with each other and PolicyRef.  Feature streams "
          "(10% each): profile Pass rules, unset tier default action, explicit ip_version, NET set members with prefix length "
-         "between w-8 and w, named-port sets; out-of-fragment stream (10%: ICMP type matches, negated CIDRs of the other family, SCTP "
+         "between w-8 and w, named-port sets; where the checker matches named ports, 40% of the plain cases put IP+port sets on BOTH legs of one evaluation (src named port + dst named port / service set / negated variants, in one rule, in consecutive rules, or policy then profile; members chosen so that the source key and the destination key answer differently; probes with the same port on both sides and the two addresses in every arrangement); out-of-fragment stream (10%: ICMP type matches, negated CIDRs of the other family, SCTP "
          "service members, missing policies / profiles / sets) compares the checker with its model only.  non-trivial = >= 2 enforced policies or profiles, >= 2 rules, "
          ">= 8 packets; distinct by (ip version, direction, state)",
     trusted=["Coq 8.16.1 kernel + vm_compute",
